@@ -28,9 +28,9 @@ from ref import h5l  # noqa: E402
 PROP = "C02"
 ENGINE = "tb"
 USES_TRANSLATOR = True
-LEAN_TARGETS = ["H5V.Props.C02", "H5V.Props.C02Algo", "H5V.Props.C02Modes"]
+LEAN_TARGETS = ["H5V.Props.C02", "H5V.Props.C02Algo", "H5V.Props.C02Modes", "H5V.Props.C02Parse"]
 LEANCHECKER = True
-AUDIT_IMPORTS = ["H5V.Props.C02", "H5V.Props.C02Algo", "H5V.Props.C02Modes"]
+AUDIT_IMPORTS = ["H5V.Props.C02", "H5V.Props.C02Algo", "H5V.Props.C02Modes", "H5V.Props.C02Parse"]
 _TABLE_THEOREMS = [
     "C02_table_special", "C02_table_default_scope", "C02_table_list_item_scope", "C02_table_button_scope",
     "C02_table_table_scope", "C02_table_table_context", "C02_table_table_text_nodes", "C02_table_table_body_context",
@@ -72,7 +72,14 @@ MODES_THEOREM_NAMES = [
     "C02_model_eq_spec_modes_fragment_completed", "C02_model_eq_spec_modes_fragment", "DocAgrees.strict",
     "C02_model_eq_spec_modes_strict", "C02_model_eq_spec_modes_fragment_strict", "C02_cell_assert_never_fails", "respects2_of_B",
     "respects2_frag_of_B"]
-THEOREMS = ["H5V.Props.C02." + t for t in _TABLE_THEOREMS + SPEC_THEOREM_NAMES + ALGO_THEOREM_NAMES + MODES_THEOREM_NAMES]
+# THE CAPSTONE (Props/C02Parse.lean): the joint model of the whole parser (tokenizer model with the tree-builder model as
+# its sink) = the WHATWG pipeline of the two independent specifications coupled by the standard's feedback (Spec/Parse.lean)
+PARSE_THEOREM_NAMES = [
+    "modelStream_total", "C02_parse_eq_spec", "C02_parse_eq_spec_regrouped", "C02_parse_eq_spec_protocol",
+    "C02_parse_eq_spec_facts", "C02_parse_eq_spec_chunked", "C02_parse_eq_spec_facts_chunked", "tokStreamOk_of_B",
+    "tokStreamOkX_of_B", "ExParse.doc_agrees", "ExParse.doc2_agrees", "ExParse.doc3_agrees", "ExParse.empty_chars_token"]
+THEOREMS = ["H5V.Props.C02." + t for t in _TABLE_THEOREMS + SPEC_THEOREM_NAMES + ALGO_THEOREM_NAMES + MODES_THEOREM_NAMES
+            + PARSE_THEOREM_NAMES]
 
 TRUSTED = [
     "Lean 4 kernel; axioms ⊆ {propext, Classical.choice, Quot.sound} (audited per run)",
